@@ -3,11 +3,28 @@ import re
 import stat
 import typing
 from email.header import Header
-from mailbox import Maildir, Message, mbox
+from mailbox import Maildir, Message, mbox, mboxMessage
 
 from pygopherd import GopherExceptions, gopherentry
 from pygopherd.handlers.base import VFS_Real
 from pygopherd.handlers.virtual import Virtual
+
+
+def getmessages(box) -> typing.Iterator[Message]:
+    """The messages of a mailbox in its own order.
+
+    mailbox.mbox decodes the "From " line in front of a message as ASCII and
+    raises UnicodeDecodeError for anything else (an envelope sender or an
+    unquoted line of a message body in UTF-8 or Latin-1).  Such a message is
+    served without its envelope line rather than taking the folder down."""
+    for key in box.iterkeys():
+        try:
+            yield box.get_message(key)
+        except UnicodeDecodeError:
+            yield mboxMessage(box.get_bytes(key))
+        except KeyError:
+            # Removed since the table of contents was read.
+            continue
 
 
 class FolderHandler(Virtual):
@@ -28,7 +45,7 @@ class FolderHandler(Virtual):
     def prepare(self):
         self.entries = []
 
-        for index, message in enumerate(self.mbox, start=1):
+        for index, message in enumerate(getmessages(self.mbox), start=1):
             handler = MessageHandler(
                 self.genargsselector(self.getargflag() + str(index)),
                 self.searchrequest,
@@ -114,7 +131,7 @@ class MessageHandler(Virtual):
         if hasattr(self, "message"):
             return self.message
 
-        mailbox = iter(self.openmailbox())
+        mailbox = getmessages(self.openmailbox())
         message = None
         try:
             for _ in range(self.message_num):
